@@ -25,6 +25,7 @@ RULE = (
     "incompatibility kind, a scalar and an index/slice; oracle = numpy arithmetic and sub-arrays of the generated "
     "arrays. Non-trivial: >=2 bins and >=3 patches and an index selection that is neither the first element nor the "
     "full range; distinct = distinct case digest."
+    ' Extensions: operand a also as restored from HDF5, unpickled, fully sliced or deep-copied; nested, zipped and interleaved simultaneous iterations over .bins/.patches.'
 )
 ASSUMPTIONS = [
     "patch selection of a counts array means the square sub-block counts[:, sel][:, :, sel]",
